@@ -11,6 +11,9 @@ TRUSTED_BASE = ["modelled, not verified: numpy `masked == scalar` is False at ma
 ASSUMPTIONS = ["input vectors are 1-D uint8 arrays or masked arrays (as produced by the tests and by collect_results)"]
 
 
+_PRIO = {"9": 0, "2": 1, "1": 2, "3": 3, "4": 4}
+
+
 def relations(rng, n_cases):
     """order / multiplicity / grouping independence evaluated directly on the implementation"""
     from ioos_qc import qartod
@@ -34,6 +37,22 @@ def relations(rng, n_cases):
             if got != base:
                 fails.append({"kind": "predicate", "function": "qartod_compare", "case": {"vs": vs},
                               "impl": base, "impl_transformed": got, "clause": f"roll-up not invariant under {label}"})
+        # C04_idem / C04_single: rolling up a roll-up changes nothing; C04_monotone: one more vector never improves
+        whole = qartod.qartod_compare([fns._vec(v) for v in vs])
+        again = core.canon_flags(qartod.qartod_compare([whole]))
+        count += 1
+        if again != base:
+            fails.append({"kind": "predicate", "function": "qartod_compare", "case": {"vs": vs},
+                          "impl": base, "impl_transformed": again, "clause": "roll-up of a roll-up differs (idempotence)"})
+        extra = [rng.choice(fns.CELLS) for _ in range(n)]
+        more = core.canon_flags(qartod.qartod_compare([fns._vec(v) for v in vs + [extra]]))
+        count += 1
+        bs, ms = base[2:].split(","), more[2:].split(",")
+        if not (base.startswith("F:") and more.startswith("F:") and len(bs) == len(ms)) or \
+                any(_PRIO.get(x, 9) > _PRIO.get(y, -1) for x, y in zip(bs, ms)):
+            fails.append({"kind": "predicate", "function": "qartod_compare", "case": {"vs": vs + [extra]},
+                          "impl": base, "impl_transformed": more,
+                          "clause": "adding a vector improved the roll-up at some position (monotonicity)"})
     return count, fails
 
 
@@ -89,7 +108,7 @@ def run(ctx):
     return adapters.merge(
         [r],
         rule="all columns of k<=3 (thorough 4) vectors over {1,2,3,4,9,0,7,masked(data 4),masked(data 1)}; all pairs of "
-             "length-2 vectors over a 6-symbol alphabet; random k<=6, n<=12; permutation/duplication/grouping relations "
+             "length-2 vectors over a 6-symbol alphabet; random k<=6, n<=12; permutation/duplication/grouping/idempotence/monotonicity relations "
              "on the implementation; aggregate() and PandasStore.compute_aggregate on CollectedResults of mixed modules "
              "(qartod / axds / argo) and streams == qartod_compare of their vectors. non-trivial = result has >=2 distinct flags or raises",
     )
